@@ -363,6 +363,14 @@ class Interp:
                     fr, lo, pr = cur.frame, cur.local, list(cur.proj)
                 else:
                     pr = pr + ["*"]
+            elif isinstance(e, dict) and "idx" in e and "frame" not in e:
+                # an index by a local: the local belongs to the frame the place is written in, not to the frame the reference leads
+                # into - resolve it now when it is a number, otherwise remember its frame
+                iv = frame.locals[e["idx"]]
+                if isinstance(iv, int) and not isinstance(iv, bool):
+                    pr = pr + [{"cidx": iv}]
+                else:
+                    pr = pr + [dict(e, frame=frame)]
             else:
                 pr = pr + [e]
             i += 1
@@ -389,7 +397,7 @@ class Interp:
         if isinstance(e, dict) and "dc" in e:
             return v
         if isinstance(e, dict) and "idx" in e:
-            i = frame.locals[e["idx"]]
+            i = e.get("frame", frame).locals[e["idx"]]
             if isinstance(v, Vec) and isinstance(i, int) and 0 <= i < len(v.items):
                 return v.items[i]
             return Unknown("index")
@@ -427,8 +435,12 @@ class Interp:
         elif isinstance(e, dict) and "f" in e and isinstance(v, Sym):
             v.attrs[e["n"]] = val
         elif isinstance(e, dict) and "idx" in e and isinstance(v, Vec):
-            i = r.frame.locals[e["idx"]]
+            i = e.get("frame", r.frame).locals[e["idx"]]
             if isinstance(i, int) and 0 <= i < len(v.items):
+                v.items[i] = val
+        elif isinstance(e, dict) and "cidx" in e and isinstance(v, Vec):
+            i = len(v.items) - e["cidx"] if e.get("from_end") else e["cidx"]
+            if 0 <= i < len(v.items):
                 v.items[i] = val
 
     def _cell_of(self, r):
